@@ -32,10 +32,11 @@ OpAssignForms ==
      e \in {B, Infix("+", B, C), Infix("*", B, C), Infix("-", B, C), Infix("<", B, C), Infix("==", B, C),
             Infix("||", B, C), Prefix("-", B), Infix("+", Infix("*", B, C), D), Call1(B, C)}}
 
-Init == \/ (Family # "opassign" /\ t \in Trees)
+Init == \/ (Family \notin {"opassign", "statements"} /\ t \in Trees)
         \/ (Family = "opassign" /\ t \in OpAssignForms)
+        \/ (Family = "statements" /\ t \in StmtProgs)
 Next == UNCHANGED t
 
-Prog == <<[k |-> "Expr", e |-> IF Family = "opassign" THEN t.tree ELSE t]>>
+Prog == IF Family = "statements" THEN t ELSE <<[k |-> "Expr", e |-> IF Family = "opassign" THEN t.tree ELSE t]>>
 PrintVec == PrintT(<<"VEC", ToJson([tree |-> Prog, toks |-> IF Family = "opassign" THEN t.toks ELSE Unparse(Prog)])>>)
 =============================================================================
